@@ -39,7 +39,7 @@ def is_vector_type(t):
 class Fun:
     """per-function symbolic environment"""
 
-    def __init__(self, fb, f, invariants=None, extra_rels=None):
+    def __init__(self, fb, f, invariants=None, extra_rels=None, free_fields=False):
         self.fb = fb
         self.f = f
         self.cfg = f.cfg
@@ -51,6 +51,7 @@ class Fun:
         self.wrap = {}
         self.approx_loops = set()
         self.extra_rels = list(extra_rels or [])
+        self.free_fields = free_fields      # may a refuting shape choose values of scalar members? only when the rule module declared the class invariant
         self.sub1 = self._single_assigned()
 
     def sym(self, kind, root):
@@ -213,6 +214,9 @@ class Fun:
             if rr[:2] != r[:2]:
                 continue
             nb = cfg.stmt_block(node)
+            if nb is None or sb is None:
+                dirty = True
+                continue
             reaches = nb == sb and e1._elem_index(cfg, cfg.blocks[sb]["el"], node) is not None and e1._elem_index(cfg, cfg.blocks[sb]["el"], node) < (e1._elem_index(cfg, cfg.blocks[sb]["el"], site) or 10**9) or (nb != sb and e1.path_exists(cfg, nb, sb))
             if not reaches:
                 continue
@@ -272,6 +276,9 @@ class Fun:
             return (iv.get("N"),)
         if r[0] == "v" and not any(p["id"] == r[1] for p in f.params):
             # local without establishment
+            return None
+        if r[0] == "f":
+            # a member container without a declared class invariant: its size is tied to other members by the class, not free
             return None
         if ismat:
             return (self.sym("R", name), self.sym("C", name))
@@ -1206,7 +1213,7 @@ def _apply_eqs(S, e, rels):
     return S.expand(e)
 
 
-def decide(S, lo, hi, dim, rels, loops, unparsed, extra_nonempty=(), disjuncts=None, blocked=None, wraps=None):
+def decide(S, lo, hi, dim, rels, loops, unparsed, extra_nonempty=(), disjuncts=None, blocked=None, wraps=None, free_fields=True):
     """verdict for one index against one dimension: ('PROVED'|'REFUTED'|'UNKNOWN', detail, witness)"""
     if hi is None or dim is None or lo is None:
         return ("UNKNOWN", "bound or dimension not a size expression", None)
@@ -1230,6 +1237,8 @@ def decide(S, lo, hi, dim, rels, loops, unparsed, extra_nonempty=(), disjuncts=N
                   set().union(*[w.free_symbols for ws in wraps.values() for w in ws]), key=str)
     if len(syms) > 6:
         return ("UNKNOWN", "too many size symbols for the witness grid", None)
+    if not free_fields and any(str(x).startswith("F_") for x in syms):
+        return ("UNKNOWN", "a refuting shape would have to choose the value of a data member, which the class (not the caller) controls", None)
     for vals in itertools.product(range(0, 4), repeat=len(syms)):
         env = dict(zip(syms, vals))
         try:
@@ -1272,10 +1281,13 @@ def sites(fun):
     return out
 
 
-def analyse(fb, f, invariants=None, public=True, extra_rels=None):
+def analyse(fb, f, invariants=None, public=None, extra_rels=None, free_fields=False):
     """yields (site node, container text, index text, dim-kind, verdict, detail, witness)"""
     S = sp()
-    fun = Fun(fb, f, invariants, extra_rels)
+    fun = Fun(fb, f, invariants, extra_rels, free_fields)
+    if public is None:
+        public = f.rec.get("access", 0) in (0, None)
+    helper = None if public else "private/protected helper: its arguments are chosen by the class, not by a caller"
     res = []
     for c, cont, idxs, kind in sites(fun):
         d = fun.dims(cont, c)
@@ -1286,7 +1298,7 @@ def analyse(fb, f, invariants=None, public=True, extra_rels=None):
                 res.append((c, ctext, c["callee"]["name"] + "()", "size", "UNKNOWN", "size unknown", None))
                 continue
             cl, why = fun.control(c)
-            v = decide(S, S.Integer(0), S.Integer(0), d[0], rels, cl, unparsed, disjuncts=fun.disjuncts, blocked=why or (fun.local_atoms and "path condition on a local flag"))
+            v = decide(S, S.Integer(0), S.Integer(0), d[0], rels, cl, unparsed, disjuncts=fun.disjuncts, blocked=helper or why or (fun.local_atoms and "path condition on a local flag"), free_fields=fun.free_fields)
             res.append((c, ctext, c["callee"]["name"] + "()", "size") + v)
             continue
         dims = d if d is not None else (None,) * len(idxs)
@@ -1304,6 +1316,6 @@ def analyse(fb, f, invariants=None, public=True, extra_rels=None):
             wraps.update(extra_w)
             cl, why = fun.control(c)
             loops = dict(cl, **loops)
-            v = decide(S, lo, hi, dims[pos], rels, loops, unparsed, disjuncts=fun.disjuncts, blocked=why or (fun.local_atoms and "path condition on a local flag") or (approx and "triangular loop: start approximated by its smallest value"), wraps=wraps)
+            v = decide(S, lo, hi, dims[pos], rels, loops, unparsed, disjuncts=fun.disjuncts, blocked=helper or why or (fun.local_atoms and "path condition on a local flag") or (approx and "triangular loop: start approximated by its smallest value"), wraps=wraps, free_fields=fun.free_fields)
             res.append((c, ctext, render(idx), dimk) + v)
     return res
